@@ -5,6 +5,9 @@ R = "sktime/forecasting/compose/_reduce.py"
 SK = "sktime/forecasting/base/_sktime.py"
 MF = "sktime/performance_metrics/forecasting/_functions.py"
 MC = "sktime/performance_metrics/forecasting/_classes.py"
+NV = "sktime/forecasting/naive.py"
+TR = "sktime/forecasting/trend.py"
+SM = "sktime/forecasting/base/adapters/_statsmodels.py"
 MUTANTS = [
  ("C01", "get_end_plus1", S, "end = n_timepoints - fh_max + 1", "end = n_timepoints - fh_max + 2"),
  ("C01", "sliding_test_shift", S, "            train = np.arange(split_point - window_length, split_point)\n            test = split_point + fh - 1", "            train = np.arange(split_point - window_length, split_point)\n            test = split_point + fh"),
@@ -30,11 +33,17 @@ MUTANTS = [
  ("C06", "rel_eps_clamp_dropped", MF, "np.maximum((y_true - y_pred_benchmark), EPS),", "np.maximum((y_true - y_pred_benchmark), 0.0),"),
  ("C06", "symmetric_ignored_mspe", MF, "        np.square(_percentage_error(y_true, y_pred, symmetric=symmetric)),\n        weights=horizon_weight,", "        np.square(_percentage_error(y_true, y_pred)),\n        weights=horizon_weight,"),
  ("C06", "weights_ignored_mrae", MF, "            np.abs(_relative_error(y_true, y_pred, y_pred_benchmark)),\n            weights=horizon_weight,", "            np.abs(_relative_error(y_true, y_pred, y_pred_benchmark)),\n            weights=None,"),
- ("C06", "mase_sp_offbyone", MF, "    y_pred_naive = y_train[:-sp]\n    mae_naive = mean_absolute_error(y_train[sp:], y_pred_naive, multioutput=multioutput)", "    y_pred_naive = y_train[:-1]\n    mae_naive = mean_absolute_error(y_train[1:], y_pred_naive, multioutput=multioutput)"),
  ("C06", "asym_threshold_le", MF, "y_true - y_pred < asymmetric_threshold,", "y_true - y_pred <= asymmetric_threshold,"),
  ("C06", "smape_no_factor2_when_zero_truth", MF, "            2\n            * np.abs(y_true - y_pred)", "            np.where(y_true == 0, 1, 2)\n            * np.abs(y_true - y_pred)"),
  ("C06", "mdape_fix_reverted", MF, "            np.abs(_percentage_error(y_true, y_pred, symmetric=symmetric)),\n            sample_weight=horizon_weight,", "            np.abs(_percentage_error(y_pred, y_true, symmetric=symmetric)),\n            sample_weight=horizon_weight,"),
  ("C06", "class_drops_square_root", MC, "return self._func(y_true, y_pred, square_root=self.square_root, **kwargs)", "return self._func(y_true, y_pred, **kwargs)"),
  ("C06", "gmrse_sqrt_before_gmean_eps", MF, "    relative_errors = np.square(_relative_error(y_true, y_pred, y_pred_benchmark))", "    relative_errors = np.square(_relative_error(y_true, y_pred, y_pred_benchmark)) + 0.0 * EPS + (y_true == y_pred) * 0.0 + (np.abs(y_true - y_pred) < 1e-3) * 1e-12"),
  ("C06", "msse_multioutput_first_col", MF, "    mse_naive = mean_squared_error(y_train[sp:], y_pred_naive, multioutput=multioutput)", "    mse_naive = mean_squared_error(y_train[sp:, :1], y_pred_naive[:, :1], multioutput=multioutput)"),
+ ("C11", "seasonal_last_tile_off", NV, "                    reps = np.int(np.ceil(fh[-1] / self.sp_))\n                    last_window = np.tile(last_window, reps=reps)", "                    reps = np.int(np.ceil(fh[-1] / self.sp_))\n                    last_window = np.tile(np.roll(last_window, 1), reps=reps)"),
+ ("C11", "drift_denominator", NV, "                        self.window_length_ - 1\n", "                        self.window_length_\n"),
+ ("C11", "trend_degree_plus1", TR, "PolynomialFeatures(degree=self.degree, include_bias=self.with_intercept)", "PolynomialFeatures(degree=self.degree + (self.degree == 2), include_bias=self.with_intercept)"),
+ ("C11", "seasonal_mean_fix_reverted", NV, "last_window = np.hstack([np.full(pad_width, np.nan), last_window])", "last_window = np.hstack([last_window, np.full(pad_width, np.nan)])"),
+ ("C11", "mean_not_nanmean", NV, "return np.repeat(np.nanmean(last_window), len(fh))", "return np.repeat(np.mean(last_window), len(fh))"),
+ ("C11", "statsmodels_first_steps", SM, "        return y_pred.loc[fh.to_absolute(self.cutoff).to_pandas()]", "        out = y_pred.iloc[: len(fh)]\n        out.index = fh.to_absolute(self.cutoff).to_pandas()\n        return out"),
+ ("C11", "expsmooth_drops_damped", "sktime/forecasting/exp_smoothing.py", "damped_trend=self.damped_trend,", "damped_trend=self.damped_trend and self.seasonal is None,"),
 ]
